@@ -173,6 +173,22 @@ Theorem C10_add_macs_mac2 : forall pk g now body,
 Proof. exact add_macs_mac2. Qed.
 Print Assumptions C10_add_macs_mac2.
 
+(* The under-load period lasts UnderLoadAfterTime after the LAST time a handshake message found the
+   queue at least an eighth full (whatever the deadline was before), so a message without MAC2
+   arriving less than 1 s after that is still met by the MAC2 gate (C10_under_load_gate). *)
+Theorem C10_load_period_slides : forall st now m al nonce body,
+  gate m = true -> is_hs m = true -> check_mac1 (d_pk st) m = true ->
+  d_load_until (fst (step st (ERecv now m true al nonce body))) = now + UnderLoadAfterTime.
+Proof. exact load_period_slides. Qed.
+Print Assumptions C10_load_period_slides.
+
+Theorem C10_still_under_load_after_last_detection : forall st now m al nonce body now2,
+  gate m = true -> is_hs m = true -> check_mac1 (d_pk st) m = true ->
+  now2 < now + UnderLoadAfterTime ->
+  under_load (fst (step st (ERecv now m true al nonce body))) now2 false = true.
+Proof. exact still_under_load_after_last_detection. Qed.
+Print Assumptions C10_still_under_load_after_last_detection.
+
 (* Non-vacuity: under forced load an initiation with valid MAC1 and zero MAC2 from 192.0.2.7:5555
    (address 1) gets a cookie reply; the same initiation with MAC2 under that cookie gets the
    response; from port 5556 it gets another cookie reply; after 121 s likewise, under a new secret. *)
